@@ -205,10 +205,22 @@ pub fn decode_inst(t: &Tape, cfg: &GenCfg, prefix: &str) -> Inst {
         // most departures inside one day so that chains and ties are frequent
         let tick = if cfg.small_grid { pick(f(r, 1), 6) as i64 } else { pick(f(r, 1), 108) as i64 + if pick_w(f(r, 2), &[7, 1]) == 1 { 144 } else { 0 } };
         let mut time = base + tick * TICK + if jitter_mode == 1 && !cfg.small_grid { choose(f(r, 2), &[0i64, 1, 59]) } else { 0 };
+        // "twin": a second departure at exactly the time of the previous one (identical start and
+        // end times of different trips; only the node index orders them)
+        if !cfg.small_grid && i > 0 && pick_w(f(r, 2) << 9, &[7, 1]) == 1 {
+            if let Some(prev) = departures.last() {
+                let prev: &Departure = prev;
+                if let Some(t0) = prev.segs.first().and_then(|x| parse_time(&x.departure)) {
+                    time = t0;
+                }
+            }
+        }
+        // a departure may serve only a part of its route (leading segments skipped)
+        let skip = if !cfg.small_grid && route.segs.len() >= 2 && pick_w(f(r, 2) << 13, &[6, 1]) == 1 { 1 } else { 0 };
         let mut segs = Vec::new();
-        for (k, rs) in route.segs.iter().enumerate() {
+        for (k, rs) in route.segs.iter().enumerate().skip(skip) {
             let b = 3 + 3 * k;
-            if k > 0 {
+            if k > skip {
                 time += shunt_min as i64 + if cfg.small_grid { choose(f(r, b), &[0i64, 600]) } else { choose(f(r, b), &[0i64, 600, 1800]) };
             }
             let need_w: [u32; 5] = if cfg.heavy_demand { [2, 3, 3, 2, 2] } else { [8, 3, 2, 1, 1] };
@@ -448,6 +460,16 @@ pub fn inst_classes(fl: &Flat) -> Vec<&'static str> {
     }
     if inst.routes.len() >= 2 && inst.routes[0].segs[0].id == inst.routes[1].segs[0].id {
         c.push("route_segment_ids_unique_per_route_only");
+    }
+    if inst.departures.iter().any(|d| inst.routes.iter().find(|r| r.id == d.route).map(|r| r.segs.len() > d.segs.len()).unwrap_or(false)) {
+        c.push("departure_serving_part_of_route");
+    }
+    {
+        let mut firsts: Vec<&str> = inst.departures.iter().filter_map(|d| d.segs.first().map(|x| x.departure.as_str())).collect();
+        firsts.sort();
+        if firsts.windows(2).any(|w| w[0] == w[1]) {
+            c.push("twin_departures_same_time");
+        }
     }
     if inst.day_limits.iter().any(|d| d.is_some()) {
         c.push("day_limit_present");
